@@ -502,6 +502,74 @@ def r11_10(run, model):
     run.floor("binding-power comparisons in expr_bp", n, 2)
 
 
+def r11_18(run, model):
+    run.rule("R11.18", "whatever can start an expression is in EXPR_FIRST: every token the atom parser has an arm for, and every prefix "
+                       "operator, is a member of the set the grammar tests before it asks for an optional expression (call arguments, tuple "
+                       "and struct-literal elements, closure bodies) - a starter missing from the set parses after `let x =` and is a syntax "
+                       "error as an argument")
+    from rules import c04
+    EXPR = "crates/parser/src/expr.rs"
+    consts = c04.const_sets(run, model)
+    first = consts.get("EXPR_FIRST")
+    if not first:
+        raise AnalysisIncomplete("EXPR_FIRST not found")
+    f = model.fn("atom", EXPR)
+    m_ = next(iter(S.find(f.body, "Match")), None)
+    if m_ is None:
+        raise AnalysisIncomplete("atom: match over the next token not found")
+    starters = {}
+    for arm in m_["arms"]:
+        for mm in re.finditer(r"T!\[('.'|[^\]]+?)\]", S.norm_ws(run.facts.text(EXPR, arm["pat"]["sp"]))):
+            t = mm.group(1)
+            starters.setdefault(t[1] if len(t) == 3 and t[0] == "'" else t, arm)
+    bp = TB.binding_powers(run, model)
+    for t in bp["prefix"]:
+        starters.setdefault(t, None)
+    for t, arm in sorted(starters.items()):
+        run.ob("R11.18", f"EXPR_FIRST|contains `{t}`", t in first, site(EXPR, arm["sp"]) if arm is not None else site(EXPR, f.node["sp"]),
+               f"`{t}` starts an expression ({'atom arm' if arm is not None else 'prefix operator'}); in EXPR_FIRST: {t in first}",
+               witness="call(|| 40), (0, || 5), Lazy { get: || 7 }: `expect \")\", actual \"||\"` although `let f = || 40;` parses")
+    run.floor("tokens that start an expression", len(starters), 28)
+
+
+def r11_19(run, model):
+    run.rule("R11.19", "a function type has the parameters that are written: where lower_ty turns the left side of `->` into a parameter list, "
+                       "only a tuple type is taken apart; any other type - `unit` included - is exactly one parameter (`unit -> T` and "
+                       "`() -> T` are different types, and `(unit) -> T` must print and parse back as itself)")
+    LOWER = "crates/ast/src/lower.rs"
+    f = model.fn("lower_ty", LOWER)
+    found = False
+    for st in S.find(f.body, "Struct"):
+        if st["segs"][-1] != "TFunc":
+            continue
+        pf = next((fl for fl in st["fields"] if fl["name"] == "params"), None)
+        if pf is None:
+            continue
+        src = pf["expr"]
+        if src["k"] == "Path" and len(src["segs"]) == 1:
+            par = S.Parents(f.body)
+            arm = next((a for a in par.ancestors(st) if a["k"] == "Arm"), None)
+            scope = arm["body"] if arm is not None else f.body
+            init = next((l["init"] for l in S.find(scope, "Local") if l["pat"]["k"] == "PIdent" and l["pat"]["name"] == src["segs"][0] and l.get("init") is not None), None)
+            src = init if init is not None else src
+        if src["k"] != "Match":
+            raise AnalysisIncomplete("lower_ty: the parameter list of a function type is not computed by a match on the lowered type")
+        found = True
+        for i, arm in enumerate(src["arms"], 1):
+            pt = S.norm_ws(run.facts.text(LOWER, arm["pat"]["sp"]))
+            if re.search(r"TypeExpr::TTuple\b", pt):
+                continue
+            binds = S.pat_bindings(arm["pat"])
+            b = arm["body"]
+            one = b["k"] == "Macro" and b["name"] == "vec" and len(binds) == 1 and arm["pat"]["k"] == "PIdent" and \
+                re.fullmatch(r"vec!\[" + re.escape(binds[0]) + r"\]", S.norm_ws(run.facts.text(LOWER, b["sp"]))) is not None
+            run.ob("R11.19", f"lower_ty|function type: `{re.sub(r'[^A-Za-z:_]', '', pt)[:30]}` is one parameter", one, site(LOWER, arm["sp"]),
+                   f"arm `{pt[:40]}` => `{S.norm_ws(run.facts.text(LOWER, b['sp']))[:40]}`",
+                   witness="fn call(f: unit -> int32) -> int32 { f(()) } is rejected and `f()` accepted: the written one-parameter type became `() -> int32`")
+    if not found:
+        raise AnalysisIncomplete("lower_ty: no TFunc with a params field found")
+
+
 def run(run, model):
     run.try_rule(r11_10, model)
     from rules import c10
@@ -525,4 +593,6 @@ def run(run, model):
     run.try_rule(r11_3, model)
     run.try_rule(r11_4, model)
     run.try_rule(r11_5, model)
+    run.try_rule(r11_18, model)
+    run.try_rule(r11_19, model)
     run.assume("documented precedence order is the one in the property statement (constant oracle)")
